@@ -77,14 +77,14 @@ type Shape struct {
 	Variants map[byte]*Shape
 }
 
-func Arr(n int) *Shape            { return &Shape{K: KArr, N: n} }
-func Int(n int) *Shape            { return &Shape{K: KInt, N: n} }
-func Compact() *Shape             { return &Shape{K: KCompact} }
-func Bytes() *Shape               { return &Shape{K: KBytes} }
-func Vec(e *Shape) *Shape         { return &Shape{K: KVec, Elem: e} }
-func Option(e *Shape) *Shape      { return &Shape{K: KOption, Elem: e} }
-func Struct(f ...*Shape) *Shape   { return &Shape{K: KStruct, Fields: f} }
-func Bool() *Shape                { return &Shape{K: KBool} }
+func Arr(n int) *Shape              { return &Shape{K: KArr, N: n} }
+func Int(n int) *Shape              { return &Shape{K: KInt, N: n} }
+func Compact() *Shape               { return &Shape{K: KCompact} }
+func Bytes() *Shape                 { return &Shape{K: KBytes} }
+func Vec(e *Shape) *Shape           { return &Shape{K: KVec, Elem: e} }
+func Option(e *Shape) *Shape        { return &Shape{K: KOption, Elem: e} }
+func Struct(f ...*Shape) *Shape     { return &Shape{K: KStruct, Fields: f} }
+func Bool() *Shape                  { return &Shape{K: KBool} }
 func Enum(v map[byte]*Shape) *Shape { return &Shape{K: KEnum, Variants: v} }
 
 // Site is one length prefix met while walking.
@@ -551,15 +551,25 @@ func canon(sb *strings.Builder, v reflect.Value, depth int) {
 
 type Decoder struct {
 	Name   string
-	Gen    func(t *rapid.T) any            // a valid message a real peer could send
-	Encode func(msg any) ([]byte, error)   // implementation's encoder (nil: none exists)
-	Wire   func(msg any) ([]byte, error)   // valid wire bytes of a generated message when there is no Encode
-	Decode func(in []byte) (any, error)    // the decoder under test
-	Canon  func(msg any) string            // canonical rendering for equality (default Canon)
-	Shape  *Shape                          // SCALE shape of the wire format (nil: not SCALE / no lengths)
-	Proto  bool                            // protobuf wire format
-	Screen func(in []byte) bool            // extra pre-allocation trigger recogniser (SCALE nested in protobuf)
-	Opaque bool                            // decoder accepts every input verbatim (ConsensusMessage, tx handshake)
+	Gen    func(t *rapid.T) any          // a valid message a real peer could send
+	Encode func(msg any) ([]byte, error) // implementation's encoder (nil: none exists)
+	Wire   func(msg any) ([]byte, error) // valid wire bytes of a generated message when there is no Encode
+	Decode func(in []byte) (any, error)  // the decoder under test
+	Canon  func(msg any) string          // canonical rendering for equality (default Canon)
+	Shape  *Shape                        // SCALE shape of the wire format (nil: not SCALE / no lengths)
+	Proto  bool                          // protobuf wire format
+	Screen func(in []byte) bool          // extra pre-allocation trigger recogniser (SCALE nested in protobuf)
+	Opaque bool                          // decoder accepts every input verbatim (ConsensusMessage, tx handshake)
+
+	// measured: largest allocation per input byte over inputs of >= 32 bytes (printed by ReportRatios)
+	MaxAllocPerByte, MaxMallocsPerByte float64
+}
+
+// ReportRatios prints the measured worst allocation ratios of a decoder (to
+// the process output kept by the driver in work/C33/out-*.txt).
+func (d *Decoder) ReportRatios() {
+	fmt.Printf("C33-RATIO %s max bytes allocated per input byte %.1f (bound factor %d), max objects per input byte %.2f (bound factor %d), inputs >= 32 bytes\n",
+		d.Name, d.MaxAllocPerByte, AllocFactor, d.MaxMallocsPerByte, MallocFactor)
 }
 
 func (d *Decoder) canon(m any) string {
@@ -611,6 +621,14 @@ func (d *Decoder) Judge(t failer, in []byte, ctx string) Result {
 	if r.Mallocs > MallocBound(len(in)) {
 		t.Fatalf("%s: decoding %d bytes (%s input %x) made %d allocations, bound %d",
 			d.Name, len(in), ctx, clip(in, 256), r.Mallocs, MallocBound(len(in)))
+	}
+	if n := len(in); n >= 32 {
+		if v := float64(r.Alloc) / float64(n); v > d.MaxAllocPerByte {
+			d.MaxAllocPerByte = v
+		}
+		if v := float64(r.Mallocs) / float64(n); v > d.MaxMallocsPerByte {
+			d.MaxMallocsPerByte = v
+		}
 	}
 	if r.Err != nil {
 		return r
@@ -817,7 +835,19 @@ func RunCase(t *rapid.T, d *Decoder) {
 
 	if variant == "truncate-all" {
 		decodedPrefixes := 0
+		// every proper prefix; for long encodings every cut in the first 300 bytes
+		// and the last 50, and about 100 evenly spread cuts in between
+		stride := 1
+		if len(valid) > 450 {
+			stride = (len(valid) - 350) / 100
+			if stride < 1 {
+				stride = 1
+			}
+		}
 		for cut := 0; cut < len(valid); cut++ {
+			if cut >= 300 && cut < len(valid)-50 && (cut-300)%stride != 0 {
+				continue
+			}
 			p := valid[:cut]
 			if knownOpen && d.Triggered(p) {
 				kit.Excluded(PreallocFinding)
